@@ -65,12 +65,22 @@ Definition value_written_back (E : env) (e : entry) : jv :=
   let raw := if String.eqb tw "" then get "value" e else apply_tr E i tw (get "value" e) in
   if String.eqb tr "" then raw else apply_tr E i tr raw.
 
+(* port values are scalars *)
+Definition scalar_eqb (a b : jv) : bool :=
+  match a, b with
+  | JNull, JNull => true
+  | JBool x, JBool y => Bool.eqb x y
+  | JNum x, JNum y => x =? y
+  | JStr x, JStr y => String.eqb x y
+  | _, _ => false
+  end.
+
 (* is key k of entry e part of the backup?  The value is, unless the port has an expression, or its transforms are not
    inverse to each other at that value (then no write reproduces the value: the API value of a port is what
    transform_read makes of what transform_write stored) *)
 Definition compared (E : env) (e : entry) (k : string) : bool :=
   negb (String.eqb k "pending_value")
-  && negb (String.eqb k "value" && (has_expression e || negb (jv_eqb (value_written_back E e) (get "value" e)))).
+  && negb (String.eqb k "value" && (has_expression e || negb (scalar_eqb (value_written_back E e) (get "value" e)))).
 
 Definition entry_equiv (E : env) (a b : entry) : Prop := forall k, compared E a k = true -> lookup k a = lookup k b.
 
